@@ -94,6 +94,10 @@ def failure_key(f):
         return "call_never_returned"
     if k == "final":
         return "final:%s" % ev.get("outcome")
+    if k == "reset" and ev.get("distinct") is False:
+        return "two_chains_produced_identical_draws"
+    if k == "ctl_resp" and ev.get("cmd") == "flush":
+        return "flush_did_not_reach_every_chain_storage"
     if k == "ch_drawn":
         for e in reversed(f.get("prefix", [])[:-1]):
             if e.get("i") == ev.get("i") and e.get("ev") == "fatal_fired":
